@@ -23,6 +23,7 @@ import os
 import re
 import shutil
 import struct
+import signal
 import subprocess
 import tempfile
 from dataclasses import dataclass, field
@@ -261,6 +262,35 @@ def error_lines(stderr):
     return out
 
 
+SPIN_CPU_SECONDS = 20
+
+
+def _spin_or_timeout(exe, n):
+    """A call that outlived the wall-clock watchdog is re-run alone under a CPU-time limit.  Wall-clock time says
+    nothing under load; SPIN_CPU_SECONDS of *CPU* spent inside one call of a generated kernel (every generated loop
+    makes <= 4 trips and the interpreter answered the same call) is non-termination: ('spin',).  If the call answers
+    this time its answer is used; anything else stays ('timeout',), i.e. inconclusive."""
+    import resource
+
+    def limit():
+        resource.setrlimit(resource.RLIMIT_CPU, (SPIN_CPU_SECONDS, SPIN_CPU_SECONDS + 5))
+    try:
+        r = subprocess.run([exe, str(n)], capture_output=True, timeout=600, preexec_fn=limit)
+    except subprocess.TimeoutExpired:
+        return ('timeout',)
+    started = False
+    for ln in r.stdout.decode('ascii', 'replace').split('\n'):
+        toks = ln.split()
+        if not toks or not toks[0].startswith('C') or not toks[0][1:].isdigit() or int(toks[0][1:]) != n:
+            continue
+        started = True
+        if toks[-1] in ('M0', 'M1') and len(toks) >= 2:
+            return ('ok', toks[1:-1], toks[-1] == 'M1')
+    if r.returncode in (-signal.SIGXCPU, -signal.SIGKILL) and (started or r.stdout.strip() == b''):
+        return ('spin',)
+    return ('timeout',)
+
+
 def run_exe(exe, ncalls, timeout=15):
     """Runs the driver, restarting after a call that kills the process.
     -> dict call number -> ('ok', tokens, mode_ok) | ('abort', signal/returncode, stderr tail) | ('timeout',)"""
@@ -284,7 +314,7 @@ def run_exe(exe, ncalls, timeout=15):
                 results[n] = ('ok', toks[1:-1], toks[-1] == 'M1')
         if timed_out:
             n = last_started if last_started is not None and last_started not in results else start
-            results[n] = ('timeout',)
+            results[n] = _spin_or_timeout(exe, n)
             start = n + 1
             n_timeouts += 1
             if n_timeouts >= 6:
